@@ -66,6 +66,7 @@ def gen_case(rng, idx):
             gws.append({"spec": "popen", "id": "w2", "execmodel": "thread", "activity": rng.choice(("idle", "blocked", "sleep"))})
     action = {"sigkill": "wait_killed", "sigterm": "wait_killed", "during_bootstrap": "wait_killed"}.get(removal, removal)
     return {"gateways": gws, "action": action, "removal": removal, "topo": topo, "model": model, "activity": act,
+            "worker_noise": rng.random() < 0.4,
             "boot_delay": rng.choice((0.0, 0.02, 0.05, 0.1, 0.15, 0.25, 0.4))}
 
 
@@ -76,7 +77,10 @@ def run_case(case, out):
     with open(cf, "w") as f:
         json.dump(case, f)
     errf = open(os.path.join(d, "stderr.txt"), "wb")
-    p = subprocess.Popen([core.PY, "-m", "vlib.initiator", cf], cwd=core.VERIF, env=core.child_env({"VERIF_TAG": tag}),
+    extra = {"VERIF_TAG": tag}
+    if case.get("worker_noise"):
+        extra["EXECNET_VERIF"] = "noise:%d:0.02:5" % (hash(tag) & 0xFFFF)
+    p = subprocess.Popen([core.PY, "-m", "vlib.initiator", cf], cwd=core.VERIF, env=core.child_env(extra),
                          stdout=subprocess.PIPE, stderr=errf, stdin=subprocess.DEVNULL, start_new_session=True)
     events = []
     ready = threading.Event()
